@@ -430,42 +430,53 @@ func c08NamespaceRewrite(c *Check, a *Anchors) {
 	}
 	type want struct{ key, typ, field string }
 	found := map[string]bool{}
-	inspectBody(fb.Body, func(nd ast.Node) bool {
-		as, ok := nd.(*ast.AssignStmt)
-		if !ok || len(as.Lhs) != 1 || len(as.Rhs) != 1 {
+	// the rewrite may live in a helper of Merge (applyNamespace(task, orig, name, include)): judge Merge and the functions of
+	// the package it calls as one body (the obligations are about field types, not about variable identity)
+	var groupBodies []*FuncBody
+	for _, g := range c.P.groupOf(fb, 1) {
+		if g != helper && (g == fb || g.Decl.Recv == nil) {
+			groupBodies = append(groupBodies, g)
+		}
+	}
+	for _, gb := range groupBodies {
+		gb := gb
+		inspectBody(gb.Body, func(nd ast.Node) bool {
+			as, ok := nd.(*ast.AssignStmt)
+			if !ok || len(as.Lhs) != 1 || len(as.Rhs) != 1 {
+				return true
+			}
+			l, r := as.Lhs[0], as.Rhs[0]
+			switch {
+			case fieldSel(info, l, PkgAst, "Dep", "Task") && isNS(r, "Task", "Dep"):
+				found["dep-target"] = true
+			case fieldSel(info, l, PkgAst, "Cmd", "Task") && isNS(r, "Task", "Cmd"):
+				found["call-target"] = true
+			case isNS(r, "", ""):
+				if ix, ok := ast.Unparen(l).(*ast.IndexExpr); ok && fieldSel(info, ix.X, PkgAst, "Task", "Aliases") {
+					found["aliases"] = true
+				}
+				if v := varOf(info, l); v != nil {
+					// taskName = helper(name, ns); later task.Task = taskName
+					inspectBody(gb.Body, func(m ast.Node) bool {
+						if as2, ok := m.(*ast.AssignStmt); ok && len(as2.Lhs) == 1 && fieldSel(info, as2.Lhs[0], PkgAst, "Task", "Task") && varOf(info, as2.Rhs[0]) == v {
+							found["task-name"] = true
+						}
+						return true
+					})
+				}
+			case fieldSel(info, l, PkgAst, "Task", "Task") && isNS(r, "", ""):
+				found["task-name"] = true
+			case fieldSel(info, l, PkgAst, "Task", "Internal"):
+				s := exprStr(r)
+				if strings.Contains(s, "||") && strings.Contains(s, ".Internal") && strings.Count(s, ".Internal") >= 2 {
+					found["internal-or"] = true
+				}
+			case fieldSel(info, l, PkgAst, "Task", "Namespace") && fieldSel(info, r, PkgAst, "Include", "Namespace"):
+				found["namespace-recorded"] = true
+			}
 			return true
-		}
-		l, r := as.Lhs[0], as.Rhs[0]
-		switch {
-		case fieldSel(info, l, PkgAst, "Dep", "Task") && isNS(r, "Task", "Dep"):
-			found["dep-target"] = true
-		case fieldSel(info, l, PkgAst, "Cmd", "Task") && isNS(r, "Task", "Cmd"):
-			found["call-target"] = true
-		case isNS(r, "", ""):
-			if ix, ok := ast.Unparen(l).(*ast.IndexExpr); ok && fieldSel(info, ix.X, PkgAst, "Task", "Aliases") {
-				found["aliases"] = true
-			}
-			if v := varOf(info, l); v != nil {
-				// taskName = helper(name, ns); later task.Task = taskName
-				inspectBody(fb.Body, func(m ast.Node) bool {
-					if as2, ok := m.(*ast.AssignStmt); ok && len(as2.Lhs) == 1 && fieldSel(info, as2.Lhs[0], PkgAst, "Task", "Task") && varOf(info, as2.Rhs[0]) == v {
-						found["task-name"] = true
-					}
-					return true
-				})
-			}
-		case fieldSel(info, l, PkgAst, "Task", "Task") && isNS(r, "", ""):
-			found["task-name"] = true
-		case fieldSel(info, l, PkgAst, "Task", "Internal"):
-			s := exprStr(r)
-			if strings.Contains(s, "||") && strings.Contains(s, ".Internal") && strings.Count(s, ".Internal") >= 2 {
-				found["internal-or"] = true
-			}
-		case fieldSel(info, l, PkgAst, "Task", "Namespace") && fieldSel(info, r, PkgAst, "Include", "Namespace"):
-			found["namespace-recorded"] = true
-		}
-		return true
-	})
+		})
+	}
 	for _, k := range []string{"task-name", "dep-target", "call-target", "aliases", "internal-or", "namespace-recorded"} {
 		c.Decide(found[k], "namespace-rewrite", k+"@"+name, fb.Decl.Pos(), "rewritten from the include's namespace", "Tasks.Merge no longer rewrites "+k+" with the include's namespace: included tasks would be bound to tasks of another file or not be callable as <namespace>:<task>")
 	}
